@@ -83,6 +83,12 @@ fn server(mut sock: UnixStream, script: Vec<Value>, log: Arc<Mutex<Vec<Vec<u8>>>
                 if let Some(ms) = r["delay_ms"].as_u64() { std::thread::sleep(Duration::from_millis(ms)); }
                 if sock.write_all(&b).is_err() { return; }
             }
+            if e["shutdown_read_after"].as_bool() == Some(true) {
+                // stop reading: the client's next write fails (EPIPE) while its read side stays open
+                let _ = sock.shutdown(std::net::Shutdown::Read);
+                std::thread::sleep(Duration::from_millis(1800));
+                return;
+            }
             if e["close_after"].as_bool() == Some(true) {
                 let _ = sock.shutdown(std::net::Shutdown::Both);
                 return;
@@ -141,8 +147,30 @@ async fn run_async(case: &Value, client: UnixStream) -> (Vec<Value>, Vec<i32>, S
     let mut cur = 0usize;
     let mut stream: Option<SearchStream<'static, String, Vec<String>>> = None;
     let mut out = vec![];
+    let mut spawned: Vec<tokio::task::JoinHandle<Value>> = vec![];
     for st in case["steps"].as_array().cloned().unwrap_or_default() {
         let name = st["do"].as_str().unwrap_or("").to_string();
+        if name == "drop_handles" {
+            handles.clear();
+            stream = None;
+            tokio::time::sleep(Duration::from_millis(150)).await;
+            out.push(json!({"do": name, "r": if driver.is_finished() { "driver-finished" } else { "driver-running" }}));
+            continue;
+        }
+        if handles.is_empty() { out.push(json!({"do": name, "r": "no-handle"})); continue; }
+        if name == "spawn_delete" {
+            let mut h = handles[cur].clone();
+            let dn = s(&st["dn"]);
+            spawned.push(tokio::spawn(async move { match guard(h.delete(&dn)).await { Some(r) => res_json(r, result_json), None => json!("hang") } }));
+            tokio::time::sleep(Duration::from_millis(40)).await;
+            out.push(json!({"do": name, "r": "spawned"}));
+            continue;
+        }
+        if name == "join" {
+            let r = match spawned.pop() { Some(j) => j.await.unwrap_or(json!("join-error")), None => json!("nothing-spawned") };
+            out.push(json!({"do": name, "r": r}));
+            continue;
+        }
         let ldap = &mut handles[cur];
         let r: Value = match name.as_str() {
             "clone_handle" => { let c = handles[cur].clone(); handles.push(c); cur = handles.len() - 1; json!("ok") }
@@ -203,7 +231,7 @@ async fn run_async(case: &Value, client: UnixStream) -> (Vec<Value>, Vec<i32>, S
         out.push(json!({"do": name, "r": r}));
     }
     tokio::time::sleep(Duration::from_millis(60)).await;
-    let (_, mut inuse) = ldap3::verif_hooks::msgmap_snapshot(&handles[0]);
+    let mut inuse = if handles.is_empty() { vec![] } else { ldap3::verif_hooks::msgmap_snapshot(&handles[0]).1 };
     inuse.sort();
     let d = if driver.is_finished() { match driver.await { Ok(Ok(())) => "ok".to_string(), Ok(Err(e)) => format!("err:{}", err_kind(&e)), Err(e) => if e.is_panic() { "panic".into() } else { "cancelled".into() } } } else { "running".to_string() };
     (out, inuse, d)
